@@ -64,6 +64,41 @@ fn observe_build8(tokens: &[&str]) -> String {
     match r { Ok(s) => s, Err(_) => "err".into() }
 }
 
+/// `stale8 <sign|clear> <cfg…>`: build, write, make the recorded header digest STALE (change one hex digit of
+/// RPMSIGTAG_SHA256 in the written bytes), parse, then re-sign (Ed25519) or clear: the digest recorded
+/// afterwards must be the true digest of the header again
+fn observe_stale8(mode: &str, tokens: &[&str]) -> String {
+    let r = (|| -> Result<String, rpm::Error> {
+        let b = builder_from(tokens)?;
+        let pkg = b.build()?;
+        let mut bytes = Vec::new();
+        pkg.write(&mut bytes)?;
+        let rec = pkg.metadata.signature.get_entry_data_as_string(rpm::IndexSignatureTag::RPMSIGTAG_SHA256)?.to_string();
+        let pos = bytes.windows(rec.len()).position(|w| w == rec.as_bytes());
+        if let Some(pos) = pos {
+            bytes[pos] = if bytes[pos] == b'0' { b'1' } else { b'0' };
+        }
+        let mut p2 = rpm::Package::parse(&mut &bytes[..])?;
+        let stale = p2.verify_digests().is_err();
+        match mode {
+            "sign" => {
+                let key = std::fs::read("/repo/tests/assets/signing_keys/secret_ed25519.asc")?;
+                let signer = rpm::signature::pgp::Signer::load_from_asc_bytes(&key)?;
+                p2.sign_with_timestamp(signer, 1_600_000_000u32)?;
+            }
+            _ => p2.clear_signatures()?,
+        }
+        let mut out = Vec::new();
+        p2.write(&mut out)?;
+        let p3 = rpm::Package::parse(&mut &out[..])?;
+        let o = p3.metadata.get_package_segment_offsets();
+        let hsha = p3.metadata.signature.get_entry_data_as_string(rpm::IndexSignatureTag::RPMSIGTAG_SHA256).map(|s| s.to_string()).unwrap_or("absent".into());
+        Ok(format!("ok stale={} hsha={} hreal={} digests={}", stale, hsha, sha256_hex(&out[o.header as usize..o.payload as usize]), p3.verify_digests().is_ok()))
+    })();
+    cleanup();
+    match r { Ok(s) => s, Err(_) => "err".into() }
+}
+
 /// inner sink driven by a finite script; afterwards it accepts everything
 struct Scripted { script: Vec<String>, pos: usize, got: Vec<u8> }
 impl Write for Scripted {
@@ -106,6 +141,7 @@ fn observe_shaw(script: &str, data: &[u8], chunks: usize) -> String {
 pub fn eval(op: &str, a: &[&str]) -> Option<String> {
     match op {
         "build8" => Some(observe_build8(a)),
+        "stale8" => Some(observe_stale8(a[0], &a[1..])),
         "shaw" => Some(observe_shaw(a[0], &unhx(a[2]), a[1].parse().ok()?)),
         _ => None,
     }
@@ -146,6 +182,12 @@ pub fn gen(ctx: &mut Ctx) {
     if si == 0 && !ctx.thorough {
         // one 3 MB incompressible case in the quick tier too (all compressors accept partial writes there)
         ctx.req(&format!("build8 n=70 v=31 l=4d4954 a=78 s=73 now=1700000000 sd=1600000000 c=gzip:6 f={}:33188:726f6f74:726f6f74:0:~:-:1500000000:3:3000000:~", hx(b"/opt/a")));
+    }
+    // re-signing / clearing a package whose recorded header digest is stale
+    for (i, mode) in ["sign", "clear", "sign", "clear"].iter().enumerate() {
+        if (i as u64) % sn != si { continue; }
+        let cfg = crate::c06::gen_cfg(&mut ctx.rng, &[0usize, 13, 4096]);
+        ctx.req(&format!("stale8 {} {}", mode, cfg));
     }
     // random configurations as for C06
     let n = ctx.q(60u64, 1500) / sn;
